@@ -420,6 +420,40 @@ def gen_exact(rng):
     return sc
 
 
+def gen_ps(rng):
+    """processor-sharing nodes (no blocking into/out of them, one priority class)"""
+    N = rng.choice([1, 1, 2])
+    sc = gen_tandem(rng, N=N, K=1)
+    sc["syscap"] = INF
+    for n, nd in enumerate(sc["nodes"]):
+        nd["qcap"] = INF
+        if n == 0 or rng.random() < 0.5:
+            nd["kind"] = "ps"
+            nd["c"] = rng.choice([1, 2, 2, 3, INF])
+            nd["psR"] = rng.choice([1, 1, 2])
+        elif nd["c"] == 0:
+            nd["c"] = 1
+    for n in range(N):
+        sc["svcS"][n][0] = samples(rng, 1, 6, 3)
+        if sc["arrS"][n][0]:
+            sc["arrS"][n][0] = samples(rng, 1, 4, 2)    # no arrival at date 0 (finding F14)
+    sc.pop("batchS", None)
+    return sc
+
+
+def gen_psfifo(rng):
+    """an unlimited PS node (R = 1) and a FIFO single-server node fed with the same arrivals and requirements"""
+    m = rng.randint(3, 10)
+    ia = [rng.randint(1, 4) for _ in range(m)]
+    req = [rng.randint(1, 5) for _ in range(m)]
+    sc = {"N": 2, "K": 1, "nodes": [{"kind": "ps", "c": INF, "psR": 1}, {"c": 1}],
+          "arrS": [[[1, 2, 3, 4]], [[1, 2, 3, 4]]], "svcS": [[[1, 2, 3, 4, 5]], [[1, 2, 3, 4, 5]]],
+          "route": [tm([[0, 0], [0, 0]])], "T": 500, "couple": [1, 2],
+          "script": {"ia/1/1": list(ia), "ia/2/1": list(ia), "svc/1/1": list(req), "svc/2/1": list(req),
+                     "batch/1/1": [1] * m, "batch/2/1": [1] * m}}
+    return sc
+
+
 def gen_stopcount(rng):
     base = rng.choice([gen_core1, gen_tandem, gen_prio, gen_renege, gen_cls])
     sc = base(rng)
@@ -454,6 +488,8 @@ def gen_stopcount(rng):
 FAMILIES = {
     "stopcount": gen_stopcount,
     "trk": gen_trk,
+    "ps": gen_ps,
+    "psfifo": gen_psfifo,
     "exact": gen_exact,
     "dead": gen_dead,
     "clsren": gen_clsren,
@@ -582,6 +618,12 @@ def mc_instances(name, tier):
             fam.append({"N": 1, "K": 2, "prio": prio, "nodes": [{"c": 1, "pp": pp}],
                         "arrS": [[[1, 2], [2]]], "svcS": [[[2, 3], [1]]], "cct": [[[], [1, 2]], [[], []]],
                         "route": [tm([[0]]), tm([[0]])], "T": 7 if not big else 9})
+        return [(fam, 4 if not big else 5)]
+    if name == "ps":
+        fam = []
+        for cap, R in [(1, 1), (2, 1), (INF, 1), (2, 2), (3, 2)]:
+            fam.append({"N": 1, "K": 1, "nodes": [{"kind": "ps", "c": cap, "psR": R}],
+                        "arrS": [[[6, 12]]], "svcS": [[[12, 24]]], "route": [tm([[0]])], "T": 60 if not big else 84})
         return [(fam, 4 if not big else 5)]
     if name == "exact":
         out = []
